@@ -79,12 +79,12 @@ func outcomeClass(o string) string {
 // recorded call (one POST as seen by the target)
 
 type call struct {
-	URL     string
-	Method  string
-	Headers map[string][]string // canonical names
-	Body    []byte              // JSON as received (production) / marshalled (scripted)
-	SameObj bool                // scripted: body object identical to the event passed to Notify
-	RawEmptyName bool           // scripted: the header map contained an entry with an empty name
+	URL          string
+	Method       string
+	Headers      map[string][]string // canonical names
+	Body         []byte              // JSON as received (production) / marshalled (scripted)
+	SameObj      bool                // scripted: body object identical to the event passed to Notify
+	RawEmptyName bool                // scripted: the header map contained an entry with an empty name
 }
 
 // target is the scripted remote end of the webhooks.
@@ -252,7 +252,6 @@ func (t *liveTarget) handle(w http.ResponseWriter, r *http.Request) {
 		hijack("")
 	}
 }
-
 
 // ---------------------------------------------------------------------------
 // the counter model (written from the statement)
@@ -570,15 +569,24 @@ func (e *env) runSequence(caseID string, rng *rand.Rand, maxTries, nOps int) {
 		}
 		return j, true
 	}
-	// resync copies the stored state into the model after a divergence was reported.
+	// resync: after a divergence has been REPORTED, the store is put into the state the model
+	// expects (raw SQL), so that the rest of the sequence keeps exercising the states the
+	// statement describes (e.g. 9 consecutive failures with max_tries=10) instead of following
+	// the defect. Never executed on code that agrees with the model.
 	resync := func(i int) {
+		h := hooks[i]
+		r.Count("store_forced_to_model_state_after_a_reported_divergence", 1)
 		row, err := e.readRow(urls[i])
 		if err != nil {
 			return
 		}
-		hooks[i].exists = row.present
-		if row.present {
-			hooks[i].active, hooks[i].count = row.active, int(row.count)
+		switch {
+		case !h.exists && row.present:
+			_, _ = e.st.DB.Exec(`DELETE FROM webhooks WHERE url = ?`, urls[i])
+		case h.exists && !row.present:
+			*h = hook{} // cannot be re-created faithfully: follow the store
+		case h.exists:
+			_, _ = e.st.DB.Exec(`UPDATE webhooks SET errors_count = ?, is_active = ? WHERE url = ?`, h.count, h.active, urls[i])
 		}
 	}
 
@@ -602,9 +610,8 @@ func (e *env) runSequence(caseID string, rng *rand.Rand, maxTries, nOps int) {
 				shape.WriteString("Rn" + a.Kind[:1])
 				if w.Code != 200 || j.Active == nil || !*j.Active || j.ErrorsCount == nil || *j.ErrorsCount != 0 || j.URL == nil || *j.URL != urls[i] {
 					r.Violate("register|new|auth="+a.Kind+"|status="+strconv.Itoa(w.Code), fmt.Sprintf("registering a new webhook answered %d %s", w.Code, clip(w.Body.String())), caseID, detail(nil))
-					resync(i)
-					if hooks[i].exists {
-						hooks[i].auths = []auth{a}
+					if row, err := e.readRow(urls[i]); err == nil && row.present {
+						_, _ = e.st.DB.Exec(`DELETE FROM webhooks WHERE url = ?`, urls[i])
 					}
 					continue
 				}
@@ -630,6 +637,7 @@ func (e *env) runSequence(caseID string, rng *rand.Rand, maxTries, nOps int) {
 				if w.Code != 200 || !row.present || !row.active || row.count != 0 {
 					r.Violate("reregister|inactive|status="+strconv.Itoa(w.Code)+"|active="+fmt.Sprint(row.active)+"|count-zero="+fmt.Sprint(row.count == 0),
 						fmt.Sprintf("re-registering an INACTIVE url: answered %d %s; stored active=%v errors_count=%d (expected reactivated with zero count)", w.Code, clip(w.Body.String()), row.active, row.count), caseID, detail(nil))
+					h.active, h.count, h.attempted = true, 0, false
 					resync(i)
 					continue
 				}
@@ -657,6 +665,7 @@ func (e *env) runSequence(caseID string, rng *rand.Rand, maxTries, nOps int) {
 				row, _ := e.readRow(urls[i])
 				if w.Code != 200 || row.present {
 					r.Violate("delete|existing|status="+strconv.Itoa(w.Code)+"|row-left="+fmt.Sprint(row.present), fmt.Sprintf("DELETE of a registered webhook answered %d %s, row still present: %v", w.Code, clip(w.Body.String()), row.present), caseID, detail(nil))
+					*h = hook{}
 					resync(i)
 					continue
 				}
@@ -686,7 +695,7 @@ func (e *env) runSequence(caseID string, rng *rand.Rand, maxTries, nOps int) {
 			}
 			r.Count("restarts", 1)
 			for k := range urls {
-				after, good := checkQuery(k, "query-after-restart")
+				after, good := checkQuery(k, "query")
 				if !hooks[k].exists || !okBefore[k] {
 					continue
 				}
@@ -785,10 +794,18 @@ func (e *env) runSequence(caseID string, rng *rand.Rand, maxTries, nOps int) {
 					}
 					r.Violate(fmt.Sprintf("delivery|client=%s|hook=%s|auth=%s|posts:%d->%s", e.mode, stClass, authKind, want, got),
 						fmt.Sprintf("a webhook that is %s (auth %s) received %d POSTs for one event, expected %d", stClass, authKind, len(cs), want), caseID, detail(map[string]any{"url": urls[k], "calls": cs}))
-					resync(k)
-					if hooks[k].exists {
-						hooks[k].attempted = false // what was attempted is unknown to the model
+					if want == 1 { // the model proceeds as if the scripted outcome had been delivered
+						if isSuccess(o) {
+							hk.count = 0
+						} else {
+							hk.count++
+							if hk.count >= maxTries {
+								hk.active = false
+							}
+						}
 					}
+					hk.attempted = false // what was really attempted is unknown to the model
+					resync(k)
 					continue
 				}
 				if want == 0 {
@@ -964,7 +981,7 @@ func body(r *ev.Run) {
 		envs[mode] = e
 		return e
 	}
-	nSeq := r.Pick(200, 5000)
+	nSeq := r.Pick(400, 8000)
 	nOps := 40
 	tries := []int{1, 2, 3, 10}
 	for i := 0; i < nSeq; i++ {
